@@ -654,8 +654,20 @@ var privateStructMemo sync.Map
 // assembledByField: some field of the struct variable is assigned on its own (the
 // variable is a parameter object being filled in, not a copy of another value).
 func assembledByField(a *ssa.Alloc) bool {
+	return assembledByFieldD(a, 0)
+}
+
+func assembledByFieldD(a *ssa.Alloc, depth int) bool {
 	if refs := a.Referrers(); refs != nil {
 		for _, r := range *refs {
+			// a copy of a variable that is assembled field by field
+			if st, ok := r.(*ssa.Store); ok && st.Addr == ssa.Value(a) && depth < 2 {
+				if ld, isLd := st.Val.(*ssa.UnOp); isLd && ld.Op == token.MUL {
+					if a2, isA := ld.X.(*ssa.Alloc); isA && a2 != a && privateStruct(a2) && assembledByFieldD(a2, depth+1) {
+						return true
+					}
+				}
+			}
 			if fa, ok := r.(*ssa.FieldAddr); ok {
 				if frefs := fa.Referrers(); frefs != nil {
 					for _, fr := range *frefs {
@@ -692,6 +704,10 @@ func fieldDefsAt(a *ssa.Alloc, f int, at ssa.Instruction) (defs []ssa.Value, zer
 					return
 				}
 				if st.Addr == ssa.Value(a) {
+					// `return x` of a named result x copies the variable onto itself
+					if ld, isLd := st.Val.(*ssa.UnOp); isLd && ld.Op == token.MUL && ld.X == ssa.Value(a) {
+						continue
+					}
 					whole := wholeDef{st.Val}
 					if !have[whole] {
 						have[whole] = true
@@ -753,6 +769,15 @@ func (w *World) canonFieldCell(a *ssa.Alloc, f int, at ssa.Instruction, d int) (
 							set[s] = true
 							continue
 						}
+					}
+				}
+			}
+			// a copy of another local parameter object
+			if ld, isLd := wd.Value.(*ssa.UnOp); isLd && ld.Op == token.MUL {
+				if a2, isA := ld.X.(*ssa.Alloc); isA && a2 != a && privateStruct(a2) {
+					if s, ok := w.canonFieldCell(a2, f, ld, d+1); ok {
+						set[s] = true
+						continue
 					}
 				}
 			}
